@@ -63,7 +63,7 @@ def trn_transcript(tok, max_depth=3, max_items=5):
         alt = st.lists(items(depth - 1, 1, 3), min_size=1, max_size=3).map(lambda b: {"alt": b})
         return st.lists(st.one_of(tok, tok, tok, alt), min_size=lo, max_size=hi)
 
-    return st.one_of(items(0, 0, max_items), items(max_depth, 0, max_items))
+    return st.one_of(*[items(d, 0, max_items) for d in range(0, max_depth + 1)])
 
 
 def trn_depth(items):
